@@ -1,16 +1,18 @@
 (* C03 - Registry holds exactly the live, not-detached nodes under unique ids.
    ONLY statements; proofs are `exact <lemma of Proofs/RegistryProofs.v>`.  Everything holds for EVERY digest H
    (collisions allowed: this is the "whatever the digest size" clause).  The state machine is Model/Registry.v;
-   `step H ct true` is the code in /repo (after the D4 repair), `step H ct false` the code before it. *)
+   `step H ct late true` is the code in /repo (after the D4 repair), `step H ct late false` the code before it;
+   `late` is ANY validation a user subclass performs in its own __post_init__ after super().__post_init__() has given
+   the new node its id and registered it (late s a = true: it raises for the node at address a just built in state s). *)
 From Oak Require Import Model.Registry Proofs.RegistryProofs Proofs.RegistryReach.
 
 (* ---- the invariant is inductive over every history of public operations ---- *)
 Theorem C03_inv_init : forall n, RInv (init_st n).
 Proof. exact inv_init. Qed.
-Theorem C03_inv_step : forall H ct s o, RInv s -> RInv (fst (step H ct true s o)).
+Theorem C03_inv_step : forall H ct late s o, RInv s -> RInv (fst (step H ct late true s o)).
 Proof. exact step_inv. Qed.
-Theorem C03_inv_reachable : forall H ct n l, RInv (run H ct true (init_st n) l).
-Proof. intros H ct n l. exact (run_inv H ct l _ (inv_init n)). Qed.
+Theorem C03_inv_reachable : forall H ct late n l, RInv (run H ct late true (init_st n) l).
+Proof. intros H ct late n l. exact (run_inv H ct late l _ (inv_init n)). Qed.
 Example C03_ex_inv : RInv ex_state /\ length (reg ex_state) = 2 /\ det ex_state = [0].
 Proof. split; [exact ex_state_inv|split; vm_compute; reflexivity]. Qed.
 
@@ -43,17 +45,17 @@ Proof. vm_compute. repeat split. Qed.
         the program's variables through child fields) and were not themselves detached / replaced away ---- *)
 Theorem C03_invS_init : forall n, RInvS (init_st n).
 Proof. exact invS_init. Qed.
-Theorem C03_invS_step : forall H ct s o, RInvS s -> RInvS (fst (step H ct true s o)).
+Theorem C03_invS_step : forall H ct late s o, RInvS s -> RInvS (fst (step H ct late true s o)).
 Proof. exact step_invS. Qed.
-Theorem C03_invS_reachable : forall H ct n l, RInvS (run H ct true (init_st n) l).
-Proof. intros H ct n l. exact (run_invS H ct l _ (invS_init n)). Qed.
+Theorem C03_invS_reachable : forall H ct late n l, RInvS (run H ct late true (init_st n) l).
+Proof. intros H ct late n l. exact (run_invS H ct late l _ (invS_init n)). Qed.
 Theorem C03_lookup_live : forall s i a, RInvS s ->
   (get_any s i = Some a <->
    exists c, cell_at s a = Some c /\ k_id c = i /\ ~ In a (det s) /\ reachable s a = true).
 Proof. exact lookup_live. Qed.
 Example C03_ex_live : RInvS ex_state /\ reachable ex_state 1 = true /\ get_any ex_state (lit ")_1") = Some 1
   /\ reachable ex_state 0 = true /\ In 0 (det ex_state) /\ get_any ex_state (lit ")") = None.
-Proof. split; [exact (run_invS ex_H ex_ct ex_ops _ (invS_init 4))|vm_compute; intuition]. Qed.
+Proof. split; [exact (run_invS ex_H ex_ct no_late ex_ops _ (invS_init 4))|vm_compute; intuition]. Qed.
 
 (* ---- ids of simultaneously registered nodes are pairwise different, whatever H ---- *)
 Theorem C03_unique_ids : forall s a b ca cb, RInv s ->
@@ -69,18 +71,48 @@ Theorem C03_next_id_fuel : forall d r, exists i, next_unique d 0 (length r) r = 
 Proof. exact next_unique_ok. Qed.
 Theorem C03_alloc_total : forall H ct s c o ps ks, alloc H ct s c o ps ks <> None.
 Proof. exact alloc_some. Qed.
-Theorem C03_no_fuel_out : forall H ct s o, RInv s -> snd (step H ct true s o) <> FuelOut.
+Theorem C03_no_fuel_out : forall H ct late s o, RInv s -> snd (step H ct late true s o) <> FuelOut.
 Proof. exact step_no_fuel_out. Qed.
 
-(* ---- a replace() that raises leaves heap, variables and every lookup as they were ---- *)
-Theorem C03_replace_fail_frame : forall H ct s dst src ch s' e, RInv s ->
-  step H ct true s (Replace dst src ch) = (s', Raised e) ->
-  heap s' = heap s /\ vars s' = vars s /\ forall j, get_any s' j = get_any s j.
-Proof. exact replace_fail_frame. Qed.
+(* ---- a replace() that raises leaves the registry exactly as it was.  It may raise EARLY (dataclasses.replace rejects a
+        non-init or unknown key before any object exists) or LATE (the class validates in its own __post_init__ after
+        super().__post_init__(): the replacement has already been given an id - possibly the original's own, which
+        detach_self had just freed - and registered when the exception leaves; the except-branch then writes the
+        original back over whatever sits under its id).  In both cases: the variables are what they were, the heap has
+        only grown (by the half-built node, which nothing can reach), and EVERY lookup returns what it returned ---- *)
+Theorem C03_replace_fail_frame : forall H ct late s dst src ch s' e, RInv s ->
+  step H ct late true s (Replace dst src ch) = (s', Raised e) ->
+  (exists ext, heap s' = heap s ++ ext) /\ vars s' = vars s /\ (forall j, get_any s' j = get_any s j) /\
+  (forall x, length (heap s) <= x -> reachable s' x = false).
+Proof. intros H ct late s dst src ch. exact (fail_frame H ct late s (Replace dst src ch)). Qed.
+(* ... in particular the original (every node that existed) keeps its id and is found under it exactly as before *)
+Theorem C03_replace_fail_keeps_id : forall H ct late s dst src ch s' e a c, RInv s ->
+  step H ct late true s (Replace dst src ch) = (s', Raised e) ->
+  resolve s src = Some a -> cell_at s a = Some c ->
+  cell_at s' a = Some c /\ get_any s' (k_id c) = get_any s (k_id c).
+Proof. intros H ct late s dst src ch s' e a c Hs Er _ Hc. exact (fail_keeps_id H ct late s _ s' e Hs Er a c Hc). Qed.
+(* the same frame for EVERY operation that raises: a constructor call, dataclasses.replace or duplicate() rejected late
+   (duplicate: after any number of copies had been built and registered) *)
+Theorem C03_fail_frame : forall H ct late s o s' e, RInv s -> step H ct late true s o = (s', Raised e) ->
+  (exists ext, heap s' = heap s ++ ext) /\ vars s' = vars s /\ (forall j, get_any s' j = get_any s j) /\
+  (forall x, length (heap s) <= x -> reachable s' x = false).
+Proof. exact fail_frame. Qed.
 Example C03_ex_replace_fail :
-  snd (step ex_H ex_ct true ex_state (Replace 3 (2, 0) [(lit "id", CProp (VInt 1))])) = Raised EValue
-  /\ snd (step ex_H ex_ct true ex_state (Replace 3 (2, 1) [(lit "nosuch", CProp (VInt 1))])) = Raised EType.
+  snd (step ex_H ex_ct no_late true ex_state (Replace 3 (2, 0) [(lit "id", CProp (VInt 1))])) = Raised EValue
+  /\ snd (step ex_H ex_ct no_late true ex_state (Replace 3 (2, 1) [(lit "nosuch", CProp (VInt 1))])) = Raised EType.
 Proof. vm_compute. split; reflexivity. Qed.
+(* class A rejects note == "bad" after super().__post_init__(): x = A(1, "n"); x.replace(note="bad") raises with the
+   replacement (address 1) already registered under x's own id; afterwards x is found under its id, the replacement
+   is unreachable *)
+Definition ex_late : st -> nat -> bool := late_of ex_ct [VReject (lit "A") (lit "note") (VStr (lit "bad"))].
+Example C03_ex_replace_fail_late :
+  let s := fst (step ex_H ex_ct ex_late true (init_st 2) (ex_leaf 0 1)) in
+  let r := step ex_H ex_ct ex_late true s (Replace 1 (0, 0) [(lit "note", CProp (VStr (lit "bad")))]) in
+  RInv s /\ snd r = Raised EValue /\ length (heap s) = 1 /\ length (heap (fst r)) = 2
+  /\ option_map k_id (cell_at (fst r) 0) = option_map k_id (cell_at (fst r) 1)
+  /\ get_any s (lit ")") = Some 0 /\ get_any (fst r) (lit ")") = Some 0 /\ reachable (fst r) 1 = false
+  /\ snd (step ex_H ex_ct ex_late true s (New 1 (lit "A") ONo [(lit "v", VInt 5); (lit "note", VStr (lit "bad"))] [])) = Raised EValue.
+Proof. split; [apply step_inv; apply inv_init|vm_compute; repeat split]. Qed.
 
 (* ---- the id of a new node: the bare digest of its preimage when no registered node holds it (adopted reading
         of "gets the same id every time", DESIGN 2.10), otherwise the digest with the first free suffix; the
@@ -106,11 +138,11 @@ Proof. eexists _, _. split; vm_compute; reflexivity. Qed.
 (* ---- the code before the D4 repair: x.detach_self(); y = twin; x.detach_self() loses the live, never
         detached y (D4); the repaired code keeps it ---- *)
 Theorem C03_refuted_double_detach :
-  let s := run demo_H demo_ct false (init_st 2) demo_ops in
+  let s := run demo_H demo_ct no_late false (init_st 2) demo_ops in
   exists c, cell_at s 1 = Some c /\ reachable s 1 = true /\ ~ In 1 (det s) /\ ~ In 1 (gone s) /\
             get_any s (k_id c) = None.
 Proof. exact refuted_double_detach. Qed.
 Theorem C03_repaired_double_detach :
-  let s := run demo_H demo_ct true (init_st 2) demo_ops in
+  let s := run demo_H demo_ct no_late true (init_st 2) demo_ops in
   exists c, cell_at s 1 = Some c /\ get_any s (k_id c) = Some 1.
 Proof. exact repaired_double_detach. Qed.
